@@ -5,6 +5,10 @@
   through `headResponse{size := 0, wrote := false}`.  `Rec.status r = r.code.getD 200` (an unset
   status is the implicit 200), `written acts` is the number of body bytes the script writes,
   `Act.key` the header key an action touches.  (Definitions in `Mux.Proofs.Head`.)
+
+  An informational status (`informational c`: 1xx except 101) passed to `WriteHeader` is not final, neither for the
+  recorder nor for `headResponse.wrote`; every theorem below holds for ALL scripts, those with informational
+  `WriteHeader`s included (`C08_informational_not_final`, `C08_head_status_informational`).
 -/
 import Mux.Proofs.Head
 namespace Mux.C08
@@ -58,6 +62,63 @@ theorem C08_head_length_sent (acts : List Act) (r0 : Rec)
     intro a ha; cases a <;> first | rfl | exact absurd ha (hnw _))
   rw [h.1, h.2]; exact ⟨hc, hs⟩
 
+/-- The same when the handler only sends informational statuses (`WriteHeader(103)` …): they are not final, so still
+nothing has been sent when it returns and the live map with the Content-Length of `C08_head_length` goes out with the
+implicit 200. -/
+theorem C08_head_length_sent_informational (acts : List Act) (r0 : Rec)
+    (hc : r0.code = none) (hs : r0.snap = none)
+    (hnw : ∀ c, Act.writeHeader c ∈ acts → informational c = true) :
+    (runHead acts 0 false r0).code = none ∧ (runHead acts 0 false r0).snap = none := by
+  have h := runHead_unsent_final acts 0 false r0 (by
+    intro a ha
+    cases a with
+    | writeHeader c => simp [Act.isFinalHeader, hnw c ha]
+    | _ => rfl)
+  rw [h.1, h.2]; exact ⟨hc, hs⟩
+
+/-- The header snapshot: if the HEAD recorder took one (the handler sent a final status itself before writing), the
+GET recorder took one too and they agree, Content-Length aside. -/
+theorem C08_head_snapshot (acts : List Act) (r0 : Rec) (h0 : r0.snap = none) (s : Hdr)
+    (hs : (runHead acts 0 false r0).snap = some s) :
+    ∃ s', (runGet acts r0).snap = some s' ∧ s.del hContentLength = s'.del hContentLength :=
+  runHead_snap acts r0 h0 s hs
+
+/-- An informational status is not final: `WriteHeader(c)` with such a `c` leaves the recorder as it was — for GET the
+rest of the script runs as if the call were not there, and for HEAD likewise, `headResponse.wrote` staying `false`
+(no hypothesis on the recorder is needed; in particular it holds when no status has been sent yet). -/
+theorem C08_informational_not_final (c : Nat) (hi : informational c = true) (as : List Act) :
+    (∀ r : Rec, r.code = none → runGet (.writeHeader c :: as) r = runGet as r) ∧
+    (∀ (sz : Nat) (r : Rec), r.code = none →
+      runHead (.writeHeader c :: as) sz false r = runHead as sz false r) := by
+  refine ⟨fun r _ => ?_, fun sz r _ => ?_⟩
+  · simp only [runGet, Rec.writeHeader_info r c hi]
+  · simp only [runHead, Bool.false_eq_true, if_false, Rec.writeHeader_info r c hi, hi, Bool.not_true]
+
+/-- `informational c` is the negation of the flag the Go wrapper stores, `status < 100 || status > 199 || status == 101`. -/
+theorem C08_informational_spec (c : Nat) :
+    (informational c = true ↔ 100 ≤ c ∧ c ≤ 199 ∧ c ≠ 101) ∧
+    ((!informational c) = true ↔ c < 100 ∨ c > 199 ∨ c = 101) :=
+  ⟨informational_iff c, not_informational_iff c⟩
+
+/-- A final status (also 101) sent first is the status of GET and of HEAD, whatever follows. -/
+theorem C08_final_first (c : Nat) (hf : informational c = false) (as : List Act) (r : Rec) (hc : r.code = none) :
+    (runGet (.writeHeader c :: as) r).status = c ∧ (runHead (.writeHeader c :: as) 0 false r).status = c := by
+  have hg : ∀ (as : List Act) (r : Rec) (x : Nat), r.code = some x → (runGet as r).code = some x := by
+    intro as
+    induction as with
+    | nil => intro r x h; exact h
+    | cons a as ih =>
+      intro r x h
+      cases a with
+      | writeHeader c' => simp only [runGet]; exact ih _ _ (by rw [Rec.writeHeader_some _ _ _ h]; exact h)
+      | write n =>
+        simp only [runGet]
+        exact ih _ _ (by rw [Rec.write_code, Rec.writeHeader_some _ _ _ h]; exact h)
+      | _ => simp only [runGet]; exact ih _ _ h
+  have h1 : (runGet (.writeHeader c :: as) r).status = c := by
+    simp only [runGet, Rec.status, hg as _ c (Rec.writeHeader_none r c hf hc)]; rfl
+  exact ⟨h1, (runHead_status _ r).trans h1⟩
+
 /-- `runCall` with `headWrap = true` runs the very script a GET runs — the script of `c.handler`,
 after the same middleware/handler panic checks — only through `runHead … 0 false` instead of
 `runGet`.  `callScript` does not depend on `headWrap`. -/
@@ -108,5 +169,26 @@ def demo2 : List Act := [.write 5, .writeHeader 404, .setHeader hContentLength [
 example : (runGet demo2 {}).body = 5 ∧ (runHead demo2 0 false {}).body = 0 ∧
     (runGet demo2 {}).status = 200 ∧ (runHead demo2 0 false {}).code = none := by decide +kernel
 example : (({} : Rec).code = none) ∧ (({} : Rec).body = 0) ∧ (({} : Rec).snap = none) := ⟨rfl, rfl, rfl⟩
+
+/-- Informational statuses, concretely: `[WriteHeader(103), WriteHeader(404)]` answers 404 for GET and for HEAD, and
+`[WriteHeader(103), Write(5 bytes)]` answers the implicit 200 for both, HEAD with Content-Length 5 and no body, nothing
+sent by the wrapper itself; 101 is final. -/
+theorem C08_head_status_informational :
+    (runGet [.writeHeader 103, .writeHeader 404] {}).status = 404 ∧
+    (runHead [.writeHeader 103, .writeHeader 404] 0 false {}).status = 404 ∧
+    (runGet [.writeHeader 103, .write 5] {}).status = 200 ∧
+    (runHead [.writeHeader 103, .write 5] 0 false {}).status = 200 ∧
+    (runHead [.writeHeader 103, .write 5] 0 false {}).hdr.get hContentLength = natToBytes 5 ∧
+    (runHead [.writeHeader 103, .write 5] 0 false {}).body = 0 ∧
+    (runHead [.writeHeader 103, .write 5] 0 false {}).code = none ∧
+    (runGet [.writeHeader 103, .write 5] {}).body = 5 ∧
+    (runGet [.writeHeader 101, .writeHeader 404] {}).status = 101 ∧
+    (runHead [.writeHeader 101, .writeHeader 404] 0 false {}).status = 101 := by decide +kernel
+
+example : informational 103 = true ∧ informational 100 = true ∧ informational 199 = true ∧
+    informational 101 = false ∧ informational 99 = false ∧ informational 200 = false := by decide
+/-- the hypotheses of `C08_head_length_sent_informational` are satisfiable by a script that does send a 1xx -/
+example : (∀ c, Act.writeHeader c ∈ [Act.writeHeader 103, .write 5] → informational c = true) := by
+  intro c hc; simp at hc; subst hc; decide
 
 end Mux.C08
